@@ -109,10 +109,12 @@ class MolecularContainer:
             # new group to hold average values
             avr_group = group.clone()
             # sum up all groups ...
+            num_found = 0
             for name in self.conformation_names:
                 group_to_add = self.conformations[name].find_group(group)
                 if group_to_add:
                     avr_group += group_to_add
+                    num_found += 1
                 else:
                     str_ = (
                         'Group {0:s} could not be found in '
@@ -120,7 +122,8 @@ class MolecularContainer:
                             group.atom.residue_label, name))
                     _LOGGER.warning(str_)
             # ... and store the average value
-            avr_group = avr_group / len(self.conformation_names)
+            # (mean over the conformations that contain the group)
+            avr_group = avr_group / num_found
             avr_conformation.groups.append(avr_group)
         # store information on coupling in the average container
         if len(list(filter(lambda c: c.non_covalently_coupled_groups,
